@@ -161,10 +161,10 @@ macro_rules! row_ident {
 // @harness name=c07_row_tc4_p5_update props=C07,C11 tier=quick cap=1500
 // row step, -U path: DF17 TC4, characters 5,6 symbolic
 row_ident!(c07_row_tc4_p5_update, 4, 5, true);
-// @harness name=c07_row_tc2_blank_update props=C07,C11 tier=thorough cap=900
+// @harness name=c07_row_tc2_blank_update props=C07,C11:thorough tier=thorough cap=900
 // row step, -U path: TC2, blank background, characters 0,1 symbolic
 row_ident!(c07_row_tc2_blank_update, 2, 0, true, pair_codes_blank);
-// @harness name=c07_row_tc2_p6_update props=C07,C11 tier=thorough cap=900
+// @harness name=c07_row_tc2_p6_update props=C07,C11:thorough tier=thorough cap=900
 // row step, -U path: TC2, characters 6,7
 row_ident!(c07_row_tc2_p6_update, 2, 6, true);
 
@@ -189,7 +189,7 @@ fn c07_create_tc4() {
     vassert!(p.category == (4, bits(&m, 38, 40) as u32), "C07: created row's emitter category wrong");
 }
 
-// @harness props=C07,C11 tier=quick cap=1500
+// @harness props=C07,C11:thorough tier=quick cap=1500
 // the identification squitter that creates a row, all other characters omitted codes (the callsign may be
 // EMPTY): default path; callsign = oracle (possibly ""), category recorded
 #[cfg_attr(kani, kani::proof)]
